@@ -3,7 +3,15 @@ From Coq Require Import Strings.String Strings.Byte.
 From Coq Require Import List NArith Permutation.
 From Goit Require Import Bytes Config ConfigFacts.
 From Goit Require Import World Repo BranchFacts ConfigCmdFacts.
+From Goit Require Import Bridge.
 Import ListNotations.
+
+(* T0 (tie to the source): every regexp literal of the current Go source denotes
+   the same language, with the same anchoring, as the pattern of the model — proved
+   by running the verified equivalence checker on SrcRegex.v, which is regenerated
+   from /repo on every run (see Bridge.v) *)
+Theorem C20_source_patterns_are_the_models : source_patterns_agree.
+Proof. exact source_patterns. Qed.
 
 (* T1: whatever order Go's map iteration writes sections and keys in, the next
    process loads the same mapping *)
@@ -84,3 +92,4 @@ Print Assumptions C20_user_set_iff.
 Print Assumptions C20_config_local_spec.
 Print Assumptions C20_configs_well_formed_on_every_history.
 Print Assumptions C20_commit_records_effective_identity.
+Print Assumptions C20_source_patterns_are_the_models.
